@@ -109,6 +109,9 @@ type PipeSpec struct {
 	Schedule []int        `json:"schedule,omitempty"` // release order of held replies (index modulo the number currently held)
 	GapUs    int          `json:"gap_us,omitempty"`   // pause after each release
 	HoldMs   int          `json:"hold_ms,omitempty"`  // wait this long before the first release (lets requests pile up behind held ones)
+	// Abandoned: before the clients start, one throw-away connection per entry writes these bytes (an
+	// incomplete request) and disconnects: whatever it leaves behind must not leak into anybody else's stream
+	Abandoned []Bin `json:"abandoned,omitempty"`
 
 	// cluster-side redirection state (C13): the proxy's view is the fixture topology, the truth is this
 	Moved     []SlotNode `json:"moved,omitempty"`     // slot really owned by Node: everybody else answers -MOVED
@@ -433,6 +436,7 @@ func runPipesQuiet(f *Fixture, spec *PipeSpec, want []int, deadline, quiet time.
 	f.Cluster.SetHandler(redirectLayer(f, spec, pi.handler(gates)))
 	defer f.Cluster.SetHandler(nil)
 
+	abandon(f, spec.Abandoned)
 	res := &PipeResult{Clients: make([]ClientResult, len(spec.Clients))}
 	clients := make([]*rclient.Client, len(spec.Clients))
 	for i := range spec.Clients {
@@ -521,6 +525,26 @@ func runPipesQuiet(f *Fixture, spec *PipeSpec, want []int, deadline, quiet time.
 		time.Sleep(quiet)
 	}
 	return res.collect(f, clients)
+}
+
+// abandon plays the throw-away connections of a PipeSpec.
+func abandon(f *Fixture, list []Bin) {
+	for i, b := range list {
+		c, err := rclient.Dial(f.Proxy.Addr(), "")
+		if err != nil {
+			continue
+		}
+		c.Write(b)
+		time.Sleep(time.Millisecond) // let the proxy read (and keep) the fragment
+		if i%2 == 0 {
+			c.Close()
+		} else {
+			c.CloseRST()
+		}
+	}
+	if len(list) > 0 {
+		time.Sleep(2 * time.Millisecond)
+	}
 }
 
 // waitClients waits until client i has want[i] replies (or its connection ended). When the deadline passes
@@ -901,6 +925,7 @@ func runSlowReader(f *Fixture, spec *PipeSpec, want int) *PipeResult {
 	f.Cluster.ResetLog()
 	f.Cluster.SetHandler(pi.handler(gates))
 	defer f.Cluster.SetHandler(nil)
+	abandon(f, spec.Abandoned)
 	res := &PipeResult{Clients: make([]ClientResult, 1)}
 	c, err := rclient.DialNoRead(f.Proxy.Addr(), 4096)
 	if err != nil {
